@@ -81,6 +81,8 @@ BASES = {
                               (1,), (1, -1), 2, 3),
     "strand_cat_pm_num": (Schema("strand_cat_pm_num", [A3], [("cat", 0)], numeric={"measures": ["sum"], "valid_counts": True}),
                           (1,), (1, -1), 3, 4),
+    # heavy weights: p-values far below 1e-10 are distinct sort keys, not ties
+    "rows_cat_x_cat_heavy": (S.schema2("rows_cat_x_cat_heavy", A3, B3, weighted=True), (40, 90), (None,), 3, 3),
     "rows_cat_x_mr": (S.schema2("rows_cat_x_mr", A3, M2), (1,), (None,), 2, 2),
     "rows_mr_x_cat": (S.schema2("rows_mr_x_cat", M2, B3), (1,), (None,), 2, 2),
     "cols_cat_x_cat": (S.schema2("cols_cat_x_cat", B3, A3, weighted=True), (1, 2), (None,), 2, 2),
@@ -114,6 +116,15 @@ def _orders(name, tier):
     meas = [m for m in ALL_MEASURES if (m in NUMERIC_KEYS) == numeric or m in ("count_unweighted",)]
     if "_pm_" in name:
         meas = ["sum", "col_share_sum", "row_share_sum", "total_share_sum"]
+    if name.endswith("_heavy"):
+        for m in ("p_value", "z_score"):
+            for d in (None, "ascending"):
+                for eid in (1, 2):
+                    o = {"type": "opposing_element", "element_id": eid, "measure": m}
+                    if d:
+                        o["direction"] = d
+                    out.append(o)
+        return out
     if name.startswith("rows_cat_x_cat"):
         for m in meas:
             for eid in (1, 3):
@@ -165,7 +176,7 @@ def _orders(name, tier):
 
 ORDERS = {t: {k: _orders(k, t) for k in BASES} for t in ("quick", "thorough")}
 PROFILES = {"thorough": {k: v[0].profiles(v[1], v[2]) for k, v in BASES.items()},
-            "quick": {k: v[0].profiles((1,), v[2]) for k, v in BASES.items()}}
+            "quick": {k: v[0].profiles(v[1] if k.endswith("_heavy") else (1,), v[2]) for k, v in BASES.items()}}
 
 
 def spaces(tier):
@@ -263,9 +274,9 @@ def _group_ok(vals_in_order, idx_in_order, descending):
             if (descending and v > prev) or (not descending and v < prev):
                 return "not %s: %r after %r" % ("descending" if descending else "ascending", v, prev)
         elif prev is not None:
-            if descending and v > prev + 1e-12 * max(1.0, abs(prev)) if not isinstance(v, str) else (descending and v > prev):
+            if descending and v > prev + 1e-12 * abs(prev) if not isinstance(v, str) else (descending and v > prev):
                 return "not descending: %r after %r" % (v, prev)
-            if not descending and (v < prev - 1e-12 * max(1.0, abs(prev)) if not isinstance(v, str) else v < prev):
+            if not descending and (v < prev - 1e-12 * abs(prev) if not isinstance(v, str) else v < prev):
                 return "not ascending: %r after %r" % (v, prev)
         prev = v
     return None
